@@ -218,9 +218,24 @@ func caseC07(c *Ctx) {
 	p.Scale(3, "CacheUnregister", "BuilderNew", "RelSet", "RemoveEntity", "BatchRemoveEntities", "BatchSetRel", "BatchExchange", "RelExchangeBatch", "BatchAdd", "BatchRemove")
 	p.W["Reset"] = 4
 	p.Zero("RegisterType", "Set", "WritePtr")
+	if c.Case%8 == 5 {
+		// many registrations at a time (a cache may treat "few" and "many" filters differently)
+		p.MaxRegs = 17 + c.R.Intn(16)
+		p.Steps = 130
+		p.Scale(4, "CacheRegister")
+		p.RelRegs = true
+	}
 	o := Opts{Cache: true, Inv: true, Model: c.Case%2 == 0, Track: true}
 	s := NewSess(cfg, o)
 	g := NewGen(c.R, s, p)
+	if p.MaxRegs > 0 {
+		for i := 0; i < p.MaxRegs-2 && !s.Failed(); i++ {
+			if op := g.gen("CacheRegister"); op != nil {
+				s.Do(op)
+			}
+		}
+		s.Cov.N["histories_with_17plus_registrations"]++
+	}
 	for i := 0; i < p.Steps && !s.Failed(); i++ {
 		op := g.Next()
 		if isBatchKind(op.K) && op.K != "NewBatch" && i%2 == 0 {
